@@ -6,7 +6,7 @@ truncation, membership on 16-bit groups), checking the reference's own algebra o
 (Parse(Format(a,p)) = (a,p), mask2len(len2mask(l)) = l, truncation = AND with the mask ...).
 The real functions (ASan+UBSan build, exact-size heap blocks, every output capacity 0..sure+1) must return
 exactly that.  Python renders abstract values to bytes, runs the driver and compares; it computes no expectation."""
-import json, os, threading, collections
+import json, os, re, collections, itertools
 from concurrent.futures import ThreadPoolExecutor
 from rig import common
 from rig.common import hexs, unhex, kv
@@ -52,6 +52,21 @@ def addr_bytes(fam, a):
 def groups_bytes(g):
     return b"".join(int(x).to_bytes(2, "big") for x in g)
 
+ASAN_ENV = {"ASAN_OPTIONS": "detect_leaks=0:abort_on_error=0:detect_stack_use_after_return=1:"
+                            "allocator_may_return_null=1:print_legend=0"}
+
+def crash_kind(a):
+    """class of a driver crash, the same for the ASan builds and the guard-page build.  (common.san_key() cannot read
+    an ASan summary whose top frame is a libc interceptor without file:line - inet_ntop, memcpy - so the report itself
+    is consulted.)"""
+    k = a["crash"][0]
+    m = re.search(r"AddressSanitizer: ([\w-]+)", a["raw"])
+    if m: k = m.group(1)
+    if "overflow" in k or "underflow" in k or k.startswith("fault-sig") or k in ("SEGV", "use-after-poison", "heap-use-after-free",
+                                                                            "stack-use-after-return", "stack-use-after-scope"):
+        return "out-of-bounds"
+    return k
+
 class Agg:
     """one ctx.fail per key: the first failing case in full, the number of cases and a few more examples"""
     def __init__(self, ctx):
@@ -59,7 +74,8 @@ class Agg:
     def fail(self, key, detail, replay=None):
         e = self.d.setdefault(key, {"n": 0, "detail": detail, "replay": replay, "more": []})
         e["n"] += 1
-        if 1 < e["n"] <= 4: e["more"].append(str(detail).split("\n")[0][:300])
+        if 1 < e["n"] <= 4:
+            e["more"].append((replay or {}).get("case") or str(detail).split("\n")[0][:300])
     def add(self, **kw): self.ctx.add(**kw)
     def flush(self):
         for key, e in self.d.items():
@@ -76,15 +92,16 @@ class Runner:
         self.ctx = ctx; self.exe = exe; self.limit = limit
         self.crashes = collections.Counter(); self.skipped = 0
     def run(self, items, handle, chunk=20000):
-        """items: list of (line, combo, meta); handle(line, meta, answer_or_crashdict)"""
-        i = 0
-        while i < len(items):
-            part = [it for it in items[i:i + chunk] if it[1] is None or self.crashes[it[1]] < self.limit]
-            self.skipped += len(items[i:i + chunk]) - len(part)
-            i += chunk
+        """items: iterable of (line, combo, meta); handle(line, meta, answer_or_crashdict)"""
+        it = iter(items)
+        while True:
+            block = list(itertools.islice(it, chunk))
+            if not block: return
+            part = [x for x in block if x[1] is None or self.crashes[x[1]] < self.limit]
+            self.skipped += len(block) - len(part)
             if not part: continue
             try:
-                res = common.batch_run(self.exe, [p[0] for p in part], timeout=600)
+                res = common.batch_run(self.exe, [p[0] for p in part], timeout=600, env=ASAN_ENV)
             except common.Infra as e:
                 if "too many driver crashes" in str(e):
                     self.ctx.fail("driver:mass-crash", str(e)[-1500:], {"first_case": part[0][0]}); return
@@ -102,21 +119,20 @@ def capclass(cap, need, sure):
 
 POW10 = (10, 100, 1000, 10000)
 
-def fmt_items(cases):
-    """every capacity 0..sure+1 for every case and both functions.  The sweeps of the first three cases of each
-    (family, port?) class come first, so that a capacity at which the code faults for EVERY address (one finding)
-    is learned by the Runner from three faults instead of thousands."""
-    probe = []; bulk = []; seen = collections.Counter()
+def fmt_items(cases, probe):
+    """every capacity 0..sure+1 for every case and both functions (generator).  The sweeps of the first three cases
+    of each (family, port?) class are the `probe` part and run first, so that a capacity at which the code faults
+    for EVERY address (one finding) is learned by the Runner from three faults instead of thousands."""
+    seen = collections.Counter()
     for c in cases:
-        fam = c["fam"]; ab = addr_bytes(fam, c["a"])
+        fam = c["fam"]; ab = hexs(addr_bytes(fam, c["a"]))
         cls = (fam, c["port"] != 0)
         seen[cls] += 1
-        dst = probe if seen[cls] <= 3 else bulk
+        if (seen[cls] <= 3) != probe: continue
         for op in ("fa", "fp"):
             sure = c["surea"] if op == "fa" else c["surep"]
             for cap in range(0, sure + 2):
-                dst.append(("%s %s %s %d %d" % (op, fam, hexs(ab), c["port"], cap), (op, fam, cap), (op, c, cap)))
-    return probe, bulk
+                yield ("%s %s %s %d %d" % (op, fam, ab, c["port"], cap), (op, fam, cap), (op, c, cap))
 
 def fmt_handle(ctx, stats):
     def h(line, meta, a):
@@ -128,8 +144,7 @@ def fmt_handle(ctx, stats):
         ctx.add(evaluations=1)
         rp = {"case": line, "expect_text": text.decode("latin1"), "need": need, "sure": sure}
         if isinstance(a, dict):
-            k = a["crash"]
-            ctx.fail("%s:%s:%s:%s" % (fn, FAMNAME[fam], capclass(cap, need, sure), k[0]), a["raw"], rp); return
+            ctx.fail("%s:%s:%s:%s" % (fn, FAMNAME[fam], capclass(cap, need, sure), crash_kind(a)), a["raw"], rp); return
         _, f = kv(a)
         rc = int(f["rc"]); n = int(f["n"]); out = f["out"]
         if f.get("w0") == "1":
@@ -139,18 +154,13 @@ def fmt_handle(ctx, stats):
             if rc == 0 and out == "!":
                 ctx.fail("%s:%s:unterminated-output" % (fn, FAMNAME[fam]), "case %s -> %s" % (line, a), rp)
             stats["undecided"] += 1; return
-        if cap < need:
-            if rc == 0:
-                ctx.fail("%s:%s:success-with-too-small-buffer" % (fn, FAMNAME[fam]),
-                         "case %s (text needs %d bytes) -> %s" % (line, need, a), rp)
-            stats["toosmall"] += 1; return
         if rc != 0:
             if cap >= sure:
                 ctx.fail("%s:%s:fails-with-sufficient-buffer" % (fn, FAMNAME[fam]),
                          "case %s (must succeed from %d bytes) -> %s" % (line, sure, a), rp)
-            stats["grey_fail"] += 1; return
+            stats["toosmall" if cap < need else "grey_fail"] += 1; return
         got = None if out == "!" else unhex(out)
-        if got not in alts:
+        if got not in alts:         # success with a text that is not the expected one (whatever the capacity)
             if op == "fp" and c["port"] in POW10:
                 key = "sa_addr_port_to_str:port-power-of-ten"
             elif op == "fp" and fam == "6" and got is not None and text.find(b"]") > 0 and \
@@ -159,6 +169,9 @@ def fmt_handle(ctx, stats):
             else:
                 key = "%s:%s:wrong-text" % (fn, FAMNAME[fam])
             ctx.fail(key, "case %s\nexpected text %r\ngot           %r   (%s)" % (line, text, got, a), rp); return
+        if cap < need:
+            ctx.fail("%s:%s:success-with-too-small-buffer" % (fn, FAMNAME[fam]),
+                     "case %s (text needs %d bytes) -> %s" % (line, need, a), rp); return
         if n != len(got):
             ctx.fail("%s:%s:wrong-reported-size" % (fn, FAMNAME[fam]), "case %s expected n=%d -> %s" % (line, len(got), a), rp); return
         stats["ok"] += 1
@@ -182,7 +195,7 @@ def parse_handle(ctx, stats):
         ctx.add(evaluations=1)
         rp = {"case": line, "text": text.decode("latin1"), "spec_verdict": r}
         if isinstance(a, dict):
-            ctx.fail("%s:%s" % (fn, a["crash"][0]), a["raw"], rp); return
+            ctx.fail("%s:%s" % (fn, crash_kind(a)), a["raw"], rp); return
         _, f = kv(a)
         if r["v"] == "unspec":
             stats["unspec"] += 1; return
@@ -223,7 +236,7 @@ def prefix_handle(ctx, stats, ph):
         fn = {"l2m": v6[fam] + "_len2mask", "m2l": v6[fam] + "_mask2len", "tl": "net_addr_truncate_preflen",
               "tm": "net_addr_truncate_mask", "in": "is_addr_in_net"}[k]
         if isinstance(a, dict):
-            ctx.fail("%s:%s" % (fn, a["crash"][0]), a["raw"], rp); return
+            ctx.fail("%s:%s" % (fn, crash_kind(a)), a["raw"], rp); return
         _, f = kv(a)
         stats[k] += 1
         if e["v"] == "unspec": return
@@ -308,10 +321,9 @@ def run_inner(real, agg):
             import random
             rnd = random.Random(ctx.seed)
             cases = [c for c in fmt_cases if c["port"] or c["fam"] == "u" or rnd.random() < 0.125]
-        probe, bulk = fmt_items(cases)
         fh = fmt_handle(agg, fst)
-        run_.run(probe, fh)
-        run_.run(bulk, fh)
+        run_.run(fmt_items(cases, True), fh)
+        run_.run(fmt_items(cases, False), fh, chunk=50000)
         # the expected texts go back through the real parsers (the reference's round-trip invariants, checked by
         # TLC above, say what they must give), plus a real-code round trip where the text is Unspecified
         pitems = []
@@ -331,7 +343,7 @@ def run_inner(real, agg):
             agg.add(evaluations=1)
             c = meta[1]
             if isinstance(a, dict):
-                agg.fail("roundtrip:%s:%s" % (FAMNAME[c["fam"]], a["crash"][0]), a["raw"], {"case": line}); return
+                agg.fail("roundtrip:%s:%s" % (FAMNAME[c["fam"]], crash_kind(a)), a["raw"], {"case": line}); return
             _, f = kv(a)
             if f["a"] != "1": agg.fail("sa_addr_to_str/sa_addr_from_str:%s:roundtrip-differs" % FAMNAME[c["fam"]], "%s -> %s" % (line, a), {"case": line})
             if f["p"] != "1":
